@@ -35,8 +35,9 @@ def decode(lib, system, coords):
             if system[2] == "t":
                 t = coords[3]
             else:
+                # a negative stored tau encodes a spacelike vector: t^2 = mag^2 - tau^2 (documented convention)
                 tau = coords[3]
-                t = lib.sqrt(tau * tau + x * x + y * y + z * z)
+                t = lib.sqrt(lib.copysign(tau * tau, tau) + x * x + y * y + z * z)
             out.append(t)
     return out
 
@@ -198,7 +199,7 @@ def unit(lib, a):
     elif n == 3:
         k = mag(lib, a)
     else:
-        k = tau(lib, a)
+        k = lib.sqrt(lib.absolute(tau2(lib, a)))  # "normalized to unit length": tau2 becomes +1 or -1
     return [x / k for x in a]
 
 
